@@ -72,8 +72,8 @@ static size_t parse_cells(const char *s, uint32_t *out, size_t max) {
     return n;
 }
 static const char *addr_class(uintptr_t a) {
-    if (a >= (uintptr_t)arenaD && a < (uintptr_t)arenaD + PAGE) return "dest-guard";
-    if (a >= (uintptr_t)arenaS && a < (uintptr_t)arenaS + PAGE) return "src-guard";
+    if (a >= (uintptr_t)arenaD && a < (uintptr_t)arenaD + PAGE) return "guard-1";
+    if (a >= (uintptr_t)arenaS && a < (uintptr_t)arenaS + PAGE) return "guard-2";
     if (a < 65536) return "null";
     return "other";
 }
@@ -92,16 +92,18 @@ static void print_obs(FILE *o, const char *pfx, const struct obs *r) {
 }
 
 /* kind: 0 norm(mode) 1 reorder 2 compose(contig) 3 wcsfc */
+static int swap_arenas;                  /* swap=1: dest behind src in memory (the other overlap-bumper branch of the decompose loop) */
 static void call(int kind, int arg, size_t dmax, const uint32_t *src, size_t n, struct obs *r) {
     size_t i, phys = dmax ? dmax : 1;
     wchar_t *d, *s;
+    wchar_t *aD = swap_arenas ? arenaS : arenaD, *aS = swap_arenas ? arenaD : arenaS;
     rsize_t len = 0xDEAD;
     int sig;
     if (phys > APAGES * PAGE / 4 - 8) phys = 8;          /* dmax beyond the arena: the call must reject it before writing */
-    d = arenaD - phys;
+    d = aD - phys;
     for (i = 0; i < phys; i++) d[i] = 0x5A5A5A5A;
-    if (kind == 1 || kind == 2) { s = arenaS - (n ? n : 1); for (i = 0; i < n; i++) s[i] = (wchar_t)src[i]; }
-    else { s = arenaS - (n + 1); for (i = 0; i < n; i++) s[i] = (wchar_t)src[i]; s[n] = 0; }
+    if (kind == 1 || kind == 2) { s = aS - (n ? n : 1); for (i = 0; i < n; i++) s[i] = (wchar_t)src[i]; }
+    else { s = aS - (n + 1); for (i = 0; i < n; i++) s[i] = (wchar_t)src[i]; s[n] = 0; }
     hn = 0; r->sig = 0; r->dest = d; r->dmax = phys < dmax ? phys : dmax;
     if ((sig = sigsetjmp(jb, 1)) == 0) {
         in_call = 1;
@@ -140,7 +142,9 @@ int main(int argc, char **argv) {
             if (kind == 0) arg = tok(line, "mode", buf, sizeof buf) ? atoi(buf) : 0;
             if (kind == 2) arg = tok(line, "contig", buf, sizeof buf) ? atoi(buf) : 0;
             n = parse_cells(tok(line, "src", buf, sizeof buf), cells, 8000);
+            swap_arenas = tok(line, "swap", buf, sizeof buf) ? atoi(buf) : 0;
             call(kind, arg, dmax, cells, n, &r);
+            swap_arenas = 0;
             print_obs(o, pfx, &r);
         } else if (!strcmp(op, "towfc")) {
             uint32_t c = (uint32_t)strtoul(tok(line, "c", buf, sizeof buf) ? buf : "0", 0, 16);
